@@ -150,6 +150,10 @@ def check(pm: ProgramModel, ctx: Ctx) -> None:
         a._f["attributes"].append(mb.attribute(aname, 3, a))
         doc = validate(ctx, pm, "C11-ONEENC", f"attribute-model:{key}", mb.model(root, []), f"attribute named {aname!r}")
         if doc is not None:
+            oos = doc.out_of_scope_attributes()
+            ctx.check(not oos, "C11-ONEENC", f"attribute-scope:{key}", where,
+                      "a clafer that sets an attribute inherits the clafer that declares it",
+                      bad=f"attribute {aname!r}: {oos[0] if oos else ''}")
             used = {u for u, _ in doc.used_attrs}
             decl = set(doc.declared_attrs)
             ctx.check(used <= decl, "C11-ONEENC", f"attribute-name:{key}", where,
